@@ -35,6 +35,8 @@ func runC23(c *engine.Ctx) {
 	// queue reports an active task for a request that no longer has any state
 	r5 := c.Rule("R5", "every popped task is released exactly once, whatever became of its request (C21.R4)", 2)
 	c21Release(c, r5, c.P.FuncsIn("taskqueue"))
+	r6 := c.Rule("R6", "the task marked done is the very task that was popped (the queue matches active tasks by pointer)", 2)
+	checkTaskIdentity(c, r6)
 
 	for _, rel := range []string{"requestmanager", "responsemanager"} {
 		m := loadMgr(c, r1, rel)
@@ -301,4 +303,55 @@ func reachableFromAvoiding(from, target ssa.Instruction, avoid func(ssa.Instruct
 		}
 	}
 	return walk(from.Block(), idx)
+}
+
+// checkTaskIdentity (C23.R6, C21.R5): go-peertaskqueue keeps active tasks by pointer; TaskDone on the address of a
+// copy is a no-op and the popped task stays active for ever.  Every TaskDone in the managers is handed a pointer that
+// travelled as a pointer (parameter, pointer-typed field), never the address of a local or of a struct field.
+func checkTaskIdentity(c *engine.Ctx, rule string) {
+	n := 0
+	for _, rel := range []string{"requestmanager", "responsemanager"} {
+		for _, f := range c.P.FuncsIn(rel) {
+			for _, ci := range engine.Calls(f) {
+				if !ci.Common.IsInvoke() || ci.Common.Method.Name() != "TaskDone" || len(ci.Common.Args) < 2 {
+					continue
+				}
+				n++
+				arg := engine.Strip(ci.Common.Args[1])
+				bad := ""
+				switch x := arg.(type) {
+				case *ssa.Alloc:
+					bad = "the address of a local copy"
+				case *ssa.FieldAddr:
+					bad = "the address of a struct field holding a copy (" + engine.FieldOf(x).Name() + ")"
+				}
+				// and callers pass the pointer on unchanged
+				if p, ok := arg.(*ssa.Parameter); ok && bad == "" {
+					idx := -1
+					for i, fp := range f.Params {
+						if fp == p {
+							idx = i
+						}
+					}
+					for _, cs := range c.P.CallSitesOf(f) {
+						if idx < 0 || idx >= len(cs.Common().Args) {
+							continue
+						}
+						switch y := engine.Strip(cs.Common().Args[idx]).(type) {
+						case *ssa.Alloc:
+							bad = "the address of a local copy (at " + c.P.Pos(cs.Pos()) + ")"
+						case *ssa.FieldAddr:
+							bad = "the address of a struct field holding a copy (" + engine.FieldOf(y).Name() + ", at " + c.P.Pos(cs.Pos()) + ")"
+						}
+					}
+				}
+				c.Decide(rule, engine.FuncName(f)+"|TaskDone-same-pointer", ci.Instr.Pos(), bad == "",
+					"TaskDone receives the task pointer as it was popped",
+					"TaskDone is given "+bad+": the queue matches active tasks by pointer, so the popped task is never released and is reported active for a request that has no state left")
+			}
+		}
+	}
+	if n == 0 {
+		c.AnchorMissing(rule, "TaskDone calls in the managers")
+	}
 }
